@@ -22,7 +22,7 @@ Definition hcase := (ctr * list name * list istep * option export)%type.
 
 Definition class_of_kind (k : vkind) : Z :=
   match k with
-  | KSignal true => 0 | KSignal false => 1 | KInstance => 2 | KInstArray => 3 | KInstBundle => 4 | KBundleInst => 5
+  | KSignal true _ => 0 | KSignal false _ => 1 | KInstance => 2 | KInstArray => 3 | KInstBundle => 4 | KBundleInst => 5
   | _ => 6
   end.
 
@@ -53,11 +53,18 @@ Definition id_of (o : option value) : Z := match o with Some v => v_id v | None 
 Definition view_opt_eqb (a : option view) (b : view) : bool :=
   match a with Some k => view_eqb k b | None => false end.
 
+(* attribute access against get(): a bound name gives the object get() gives; an unbound name gives NO attribute at all
+   (-1: AttributeError / None) - "some other Python object" (-2) is acceptable only for the Python-level attributes of the
+   class (`ports`, `name`, `add`, ...: the regenerated table of public attribute names).  A container that keeps plain
+   class-body data (`width = 8`) readable under a name its namespace does not know - or knows as another object - fails here. *)
+Definition ga_ok (c : ctr) (n : name) (g ga : Z) : bool :=
+  if 0 <=? g then ga =? g else if mem n (public_attrs c) then ga <? 0 else ga =? -1.
+
 (* the observation is coherent and denotes exactly the abstract map `a` *)
 Definition obs_ok (c : ctr) (a : astate) (ob : obs) : bool :=
   forallb (fun e => let '(n, g, ga) := e in
      (g =? id_of (a_map a n)) &&
-     (is_private n || (if 0 <=? g then ga =? g else ga <? 0))) (o_gets ob)
+     (is_private n || ga_ok c n g ga)) (o_gets ob)
   &&
   forallb (fun e => let '(n, i, cls, par, nm) := e in
      par && nm &&
@@ -139,7 +146,7 @@ Definition export_ok (c : ctr) (a : astate) (names : list name) (e : export) : b
     match a_map a n with
     | Some v =>
         match v_kind v with
-        | KSignal port => s && negb i && negb d && (is_bundle c || Bool.eqb p port)
+        | KSignal port _ => s && negb i && negb d && (is_bundle c || Bool.eqb p port)
         | KInstance => i && negb s && negb d
         | KInstArray | KInstBundle | KBundleInst => d && negb s && negb i
         | _ => false
@@ -178,6 +185,27 @@ Definition chk_class (x : ccase) : Z :=
     end in
   if model_ok then 0 else 2.
 
+(* class-style definition FOLLOWED by an edit history (second strengthening round): the class body (index 0), then every
+   operation (index k >= 1) is checked as in chk_history, starting from the state the class body denotes; identities of the
+   body's values and of the operations' values are disjoint (the harness numbers them consecutively) *)
+Definition chcase := (ctr * list (name * value) * bool * option obs * list name * list istep * option export)%type.
+
+Definition chk_class_hist (x : chcase) : Z :=
+  let '(c, items, acc, ob, names, steps, ex) := x in
+  let r0 := chk_class (c, items, acc, ob) in
+  if negb (r0 =? 0) then r0 + 10 else
+  match spec_class c items, of_class_body c init items, acc with
+  | Accepted a, Ok s, true =>
+      let '(r, a') := walk_spec c a ob steps 1 in
+      if negb (r =? 0) then r else
+      let n := Z.of_nat (List.length steps) in
+      match ex with
+      | Some e => if export_ok c a' names e then walk_model c s steps 1 else 1 + 10 * (n + 2)
+      | None => walk_model c s steps 1
+      end
+  | _, _, _ => 0
+  end.
+
 Definition chk_static (l : list bool) : Z := if forallb (fun b => b) l then 0 else 1.
 
 (* ====================================================================================================
@@ -198,7 +226,7 @@ Definition wobs_ok (ci : cid) (a : astate) (h : heap) (ob : obs) : bool :=
   let c := fst ci in
   forallb (fun e => let '(n, g, ga) := e in
      (g =? id_of (a_map a n)) &&
-     (is_private n || (if 0 <=? g then ga =? g else ga <? 0))) (o_gets ob)
+     (is_private n || ga_ok c n g ga)) (o_gets ob)
   &&
   forallb (fun e => let '(n, i, cls, par, nm) := e in
      existsb (fun e' => let '(m, g, _) := e' in String.eqb m n && (g =? i)) (o_gets ob) &&
